@@ -51,6 +51,25 @@ func (c *pieceCtx) factCall(name string, want bool, need LockSet) lockedFact {
 	}
 }
 
+// factNotDeleted: the fact "the store is not deleted" (!ps.deleted).
+func (c *pieceCtx) factNotDeleted() lockedFact {
+	return lockedFact{
+		name: "!deleted under the lock",
+		need: LW,
+		edge: func(cond ssa.Value, pol bool) bool {
+			fv, _ := loadedField(cond)
+			return fv == c.deleted && !pol
+		},
+	}
+}
+
+// factDataNil: the fact "the piece has no buffer" (Piece.data == nil).
+func (c *pieceCtx) factDataNil() lockedFact {
+	f := c.factDataNonNil()
+	inner := f.edge
+	return lockedFact{name: "data == nil under the lock", need: LW, edge: func(cond ssa.Value, pol bool) bool { return inner(cond, !pol) }}
+}
+
 // factDataNonNil: the fact "the piece has a buffer" (Piece.data != nil).
 func (c *pieceCtx) factDataNonNil() lockedFact {
 	return lockedFact{
@@ -183,6 +202,21 @@ func usesOfBuffer(v ssa.Value, out *[]dataUse, seen map[ssa.Value]bool) {
 			case isCallNamed(x, "alloc", "Free"):
 				*out = append(*out, dataUse{"free", x})
 			default:
+				// a package-local helper: what it does with the corresponding parameter is what is done with the
+				// buffer (digest(data) hashing it, say); the uses are attributed to the helper and, through the
+				// unit relation, to the store function it serves
+				if h := x.Call.StaticCallee(); h != nil && h.Blocks != nil && relPkg(h) == "tor/piece" && !x.Call.IsInvoke() && len(seen) < 200 {
+					followed := false
+					for i, a := range x.Call.Args {
+						if a == v && i < len(h.Params) {
+							usesOfBuffer(h.Params[i], out, seen)
+							followed = true
+						}
+					}
+					if followed {
+						continue
+					}
+				}
 				*out = append(*out, dataUse{"call", x})
 			}
 		case *ssa.Store:
@@ -249,11 +283,22 @@ func (c *pieceCtx) r1(rule string) {
 		var uses []dataUse
 		usesOfBuffer(ld, &uses, map[ssa.Value]bool{})
 		for _, u := range uses {
-			key := fmt.Sprintf("%s/%s", fname(in.Parent()), u.Kind)
-			if allowed[fn.Name()][u.Kind] && in.Parent() == fn {
+			key := fmt.Sprintf("%s/%s", fname(u.In.Parent()), u.Kind)
+			if allowed[fn.Name()][u.Kind] && in.Parent() == fn && u.In.Parent() == fn {
 				r.Ok(rule, key, u.In.Pos(), "use of the piece buffer (%s) is one of the enumerated ones for %s", u.Kind, fn.Name())
+			} else if roots, stray := c.p.unitRoots(u.In.Parent(), func(g *ssa.Function) bool {
+				return relPkg(g) == "tor/piece" && g.Parent() == nil && allowed[g.Name()] != nil && g.Signature.Recv() != nil
+			}); stray == nil && len(roots) > 0 && func() bool {
+				for _, rt := range roots {
+					if !allowed[rt.Name()][u.Kind] {
+						return false
+					}
+				}
+				return true
+			}() {
+				r.Ok(rule, key, u.In.Pos(), "use of the piece buffer (%s) in a private helper of %s, for which it is one of the enumerated uses", u.Kind, roots[0].Name())
 			} else {
-				r.Fail(rule, key, u.In.Pos(), "the piece buffer is used as '%s' in %s: piece bytes can leave the store (or be modified) without the state/lock checks of ReadAt/AddData/Finalise/del", u.Kind, fname(in.Parent()))
+				r.Fail(rule, key, u.In.Pos(), "the piece buffer is used as '%s' in %s: piece bytes can leave the store (or be modified) without the state/lock checks of ReadAt/AddData/Finalise/del", u.Kind, fname(u.In.Parent()))
 			}
 		}
 	}
@@ -413,42 +458,78 @@ func (c *pieceCtx) checkCompleteTransition(rule, key string, cs ssa.CallInstruct
 		return
 	}
 	a0, a1 := eq.Call.Args[0], eq.Call.Args[1]
-	fromSum := func(v ssa.Value) *ssa.Call {
+	// hashedBy: v is (a slice of) the SHA-1 of some value x, computed at instruction `site` of this function:
+	// sha1.Sum(x) stored in a local array and sliced, or the result of a package-local helper that returns such a
+	// digest of one of its parameters (digest(data)).
+	var hashedBy func(v ssa.Value, d int) (x ssa.Value, site ssa.Instruction)
+	hashedBy = func(v ssa.Value, d int) (ssa.Value, ssa.Instruction) {
 		v = strip(v)
-		sl, ok := v.(*ssa.Slice)
-		if !ok {
-			return nil
+		if d > 3 {
+			return nil, nil
 		}
-		al, ok := sl.X.(*ssa.Alloc)
-		if !ok {
-			return nil
-		}
-		for _, ref := range *al.Referrers() {
-			if st, ok := ref.(*ssa.Store); ok && st.Addr == ssa.Value(al) {
-				if sc, ok := st.Val.(*ssa.Call); ok && isStdCall(sc, "crypto/sha1", "", "Sum") {
-					return sc
+		switch y := v.(type) {
+		case *ssa.Slice:
+			al, ok := y.X.(*ssa.Alloc)
+			if !ok {
+				return nil, nil
+			}
+			for _, ref := range *al.Referrers() {
+				if st, ok := ref.(*ssa.Store); ok && st.Addr == ssa.Value(al) {
+					if sc, ok := st.Val.(*ssa.Call); ok && isStdCall(sc, "crypto/sha1", "", "Sum") {
+						return sc.Call.Args[0], sc
+					}
 				}
 			}
+		case *ssa.Call:
+			h := y.Call.StaticCallee()
+			if h == nil || h.Blocks == nil || relPkg(h) != "tor/piece" || y.Call.IsInvoke() {
+				return nil, nil
+			}
+			idx := -1
+			for _, ret := range returnsOf(h) {
+				res := retResults(ret)
+				if len(res) != 1 {
+					return nil, nil
+				}
+				x, _ := hashedBy(res[0], d+1)
+				prm, ok := x.(*ssa.Parameter)
+				if !ok {
+					return nil, nil
+				}
+				k := -1
+				for i, pp := range h.Params {
+					if pp == prm {
+						k = i
+					}
+				}
+				if k < 0 || (idx >= 0 && idx != k) {
+					return nil, nil
+				}
+				idx = k
+			}
+			if idx >= 0 && idx < len(y.Call.Args) {
+				return y.Call.Args[idx], y
+			}
 		}
-		return nil
+		return nil, nil
 	}
 	isParam := func(v ssa.Value) bool {
 		_, ok := strip(v).(*ssa.Parameter)
 		return ok
 	}
-	var sum *ssa.Call
-	switch {
-	case fromSum(a0) != nil && isParam(a1):
-		sum = fromSum(a0)
-	case fromSum(a1) != nil && isParam(a0):
-		sum = fromSum(a1)
+	var hashed ssa.Value
+	var sum ssa.Instruction
+	if x, site := hashedBy(a0, 0); x != nil && isParam(a1) {
+		hashed, sum = x, site
+	} else if x, site := hashedBy(a1, 0); x != nil && isParam(a0) {
+		hashed, sum = x, site
 	}
 	if sum == nil {
 		r.Fail(rule, key, eq.Pos(), "the hash comparison that guards completion does not compare sha1.Sum(…) with the caller-supplied hash")
 		return
 	}
 	// sum's argument is the piece's own buffer
-	fv, _ := loadedField(sum.Call.Args[0])
+	fv, _ := loadedField(hashed)
 	if fv != c.data {
 		r.Fail(rule, key, sum.Pos(), "the digest that guards completion is not computed over the piece's buffer (Piece.data)")
 		return
